@@ -260,6 +260,15 @@ Theorem C01_varint_bits_py : forall n, py_venc n = venc n.
 Proof. exact py_venc_correct. Qed.
 Print Assumptions C01_varint_bits_py.
 
+(* the reader loop `result |= (byte & 0x7F) << shift; if byte < 0x80: return result; shift += 7` (Python, and C++ before its W-bit
+   truncation) is the abstract varint decoder on every byte string, so it reads back every venc whatever follows *)
+Theorem C01_varint_bits_reader : forall l, all_bytes l = true -> vdec_bits l = vdec l.
+Proof. exact vdec_bits_correct. Qed.
+Print Assumptions C01_varint_bits_reader.
+Theorem C01_varint_bits_reader_roundtrip : forall n r, all_bytes r = true -> vdec_bits (venc n ++ r) = Some (n, r).
+Proof. exact vdec_bits_venc. Qed.
+Print Assumptions C01_varint_bits_reader_roundtrip.
+
 (* non-vacuity *)
 Example C01_hyp_sat :
   steps_ok [SValue (TRec [TPrim PString; TOpt (TPrim PInt32)]); SStream (TUnion true [TPrim PFloat32; TVec (TPrim PUint16)])]
